@@ -297,8 +297,11 @@ variant('b-dispose-noop', ['C11'], H + 'request_response_responder.py',
 """, ('C11.c', 'RequestResponseResponder.dispose'))
 variant_multi('b-keepalive-task-not-cancelled', ['C11'], [
     ('rsocket/rsocket_client.py', """        await super()._stop_tasks()
-        await cancel_if_task_exists(self._keepalive_task)
-        self._keepalive_task = None
+        keepalive_task = self._keepalive_task
+        await cancel_if_task_exists(keepalive_task)
+
+        if self._keepalive_task is keepalive_task:
+            self._keepalive_task = None
 """, """        await super()._stop_tasks()
         self._keepalive_task = None
 """),
@@ -309,8 +312,11 @@ variant_multi('b-keepalive-task-not-cancelled', ['C11'], [
 """)], ('C11.e', '_keepalive_task'))
 variant('t-keepalive-task-cancelled-by-sender-only', ['C11'], 'rsocket/rsocket_client.py',
         """        await super()._stop_tasks()
-        await cancel_if_task_exists(self._keepalive_task)
-        self._keepalive_task = None
+        keepalive_task = self._keepalive_task
+        await cancel_if_task_exists(keepalive_task)
+
+        if self._keepalive_task is keepalive_task:
+            self._keepalive_task = None
 """, """        await super()._stop_tasks()
         self._keepalive_task = None
 """, kind='twin',
@@ -1648,12 +1654,12 @@ variant('b-route-scan-stops-at-first-foreign-entry', ['C19'], 'rsocket/extension
         "        if not isinstance(item, RoutingMetadata):\n            break\n        return item.tags[0].decode()",
         ('C19.c', 'require_route'))
 variant('b-stop-tasks-clears-before-awaiting', ['C17'], RB,
-        "        await cancel_if_task_exists(self._receiver_task)\n        self._receiver_task = None\n",
-        "        receiver_task, self._receiver_task = self._receiver_task, None\n        await cancel_if_task_exists(receiver_task)\n",
+        "            await cancel_if_task_exists(receiver_task)\n\n            if self._receiver_task is receiver_task:\n                self._receiver_task = None\n",
+        "            if self._receiver_task is receiver_task:\n                self._receiver_task = None\n\n            await cancel_if_task_exists(receiver_task)\n",
         ('C17.g', '_stop_tasks'))
 variant('t-stop-tasks-through-local-alias', ['C11', 'C17'], RB,
-        "        await cancel_if_task_exists(self._receiver_task)\n        self._receiver_task = None\n",
-        "        receiver_task = self._receiver_task\n        await cancel_if_task_exists(receiver_task)\n        self._receiver_task = None\n",
+        "        sender_task, receiver_task = self._sender_task, self._receiver_task\n",
+        "        sender_task = self._sender_task\n        receiver_task = self._receiver_task\n        current = asyncio.current_task()\n",
         kind='twin')
 variant('b-rx-cancel-disposes-before-completing-feedback', ['C20'], 'rsocket/rx_support/back_pressure_publisher.py',
         "    def cancel(self):\n        self._feedback.on_completed()",
@@ -2347,3 +2353,15 @@ variant('b-keepalive-clock-starts-before-the-transport', ['C15'], RB,
 variant('b-rx-empty-response-echoes-the-request', ['C20'], 'rsocket/rx_support/rx_handler_adapter.py',
         "            operators.default_if_empty(Payload()),", "            operators.default_if_empty(payload),",
         ('C20.o', 'RxHandlerAdapter.request_response'))
+
+# C17.h (F22) _stop_tasks is safe against itself and the connect() that follows
+variant('b-stop-tasks-awaits-the-current-task', ['C17'], RB,
+        "        if receiver_task is not asyncio.current_task():\n            await cancel_if_task_exists(receiver_task)\n\n            if self._receiver_task is receiver_task:\n                self._receiver_task = None",
+        "        await cancel_if_task_exists(receiver_task)\n\n        if self._receiver_task is receiver_task:\n            self._receiver_task = None",
+        ('C17.h', 'not awaited from inside itself'))
+variant('b-stop-tasks-stale-clear', ['C17'], RB,
+        "            if self._receiver_task is receiver_task:\n                self._receiver_task = None",
+        "            self._receiver_task = None", ('C17.h', 'cleared only if it still holds'))
+variant('b-client-stop-tasks-stale-keepalive-clear', ['C17'], 'rsocket/rsocket_client.py',
+        "        if self._keepalive_task is keepalive_task:\n            self._keepalive_task = None",
+        "        self._keepalive_task = None", ('C17.h', 'cleared only if it still holds'))
